@@ -1293,6 +1293,8 @@ std::string schema_str(const std::vector<int>& schema)
 void run_views_case(report_t& r, const std::string& one, std::vector<int> schema, const int N, const int mask, const int tkind,
                     const int stack, const size_t nthr, const bool do_sample)
 {
+    // a crash inside a case is a memory error of the library on valid calls: the driver attributes it to this line
+    std::fprintf(stderr, "CASE %s\n", one.c_str());
     if (stack_appends_gradient_input(stack))
     {
         schema.push_back(K_GRAD);
@@ -2070,6 +2072,7 @@ struct hrunner_t
         const auto model = make_model(cfg.kinds(), cfg.N, 2, -1, 0); // sample 0 missing in every feature
         const auto one   = cfg.str() + "|" + hist_str(hist);
         const auto N     = static_cast<tensor_size_t>(cfg.N);
+        std::fprintf(stderr, "CASE %s\n", one.c_str());
         verif::detrand_reset(0xC08);
         const auto source = make_source(model);
         dataset_t  dataset(*source, 1U);
